@@ -120,6 +120,68 @@ DIRECTED = [
 ]
 
 
+def gather_model_lines(ev, done_t, cands, servers):
+    """per discovery item (local socket x server) the sequence of rounds the real agent went through, classified from the
+    trace, as a `gather item` line for the Lean Gather model, with what the implementation did (rounds, candidate) as the
+    expected output.  Items of a server that issued a 300 redirect and runs with packet duplication are skipped (a redirect
+    moves all items of that server at once; the per-item model does not carry that)."""
+    kind_of = {a: k for k, a, _ in servers}
+    items, order = {}, []
+    answered, redirected = {}, set()
+    for e in ev:
+        m = re.match(r"t=(\d+) tx A (\S+)->(\S+) len=\d+ stun class=0 method=([13]) .*mi=(\d) txid=(\w+)", e)
+        if m and m.group(3) in kind_of and int(m.group(1)) <= done_t:
+            key = (m.group(2), m.group(3))
+            if key not in items:
+                items[key] = []; order.append(key)
+            if not items[key] or items[key][-1]["txid"] != m.group(6):
+                items[key].append({"txid": m.group(6), "mi": int(m.group(5)), "t": int(m.group(1))})
+            continue
+        m = re.match(r"t=(\d+) rx A (\S+)->(\S+) len=\d+ stun class=([23]) method=(\d+) .*err=(\d+) mi=(\d) txid=(\w+)", e)
+        if m and int(m.group(1)) <= done_t:
+            answered.setdefault(m.group(8), []).append((int(m.group(4)), int(m.group(6)), int(m.group(7)), int(m.group(1))))
+            if m.group(6) == "300":
+                redirected.add(m.group(2))
+    base_comp = {c[2]: c[1] for c in cands if c[0] == 0}
+    lines = []
+    have = {}      # component -> candidate address codes already created by earlier items (success order)
+    succ = []
+    for key in order:
+        src, dst = key
+        if dst in redirected or src not in base_comp:
+            continue
+        behs, ok = [], True
+        for r in items[key]:
+            # the first answer the transaction accepts: a TURN item (long-term credentials) ignores answers without
+            # MESSAGE-INTEGRITY except the 401 / 438 challenges, and keeps retransmitting; answers after the schedule are late
+            a = None
+            for cand_a in answered.get(r["txid"], []):
+                if cand_a[3] > r["t"] + 2000 - 25:
+                    break
+                if kind_of[dst] == "stun" or cand_a[2] == 1 or (cand_a[0] == 3 and cand_a[1] in (401, 438)):
+                    a = cand_a
+                    break
+            if a is None:
+                behs.append("x")
+            elif a[0] == 2:
+                code = int(dst.split(":")[0].split(".")[-1]) + (1000 if kind_of[dst] == "turn" else 0)
+                behs.append(f"s:{code}")
+            elif a[1] in (401, 438) and (a[1] == 438 or r["mi"] == 0):
+                behs.append("a")
+            else:
+                behs.append("e")
+        if not ok or not behs:
+            continue
+        comp = base_comp[src]
+        code = int(dst.split(":")[0].split(".")[-1]) + (1000 if kind_of[dst] == "turn" else 0)
+        want_ip = ("127.0.0." if kind_of[dst] == "turn" else "192.0.2.") + dst.split(":")[0].split(".")[-1] + ":"
+        got = any(c[1] == comp and c[0] == (3 if kind_of[dst] == "turn" else 1) and c[2].startswith(want_ip) for c in cands)
+        lines.append((f"gather item - {' '.join(behs)}",
+                      f"done 1 rounds {len(behs)} cands {code if got and behs[-1].startswith('s:') else '-'}",
+                      f"item {src}->{dst}"))
+    return lines
+
+
 def scenario(args):
     exe, seed, tier = args
     import random
@@ -229,10 +291,13 @@ def scenario(args):
                 bad.append(("unconfirmed-candidate", f"relayed candidate {addr} was supplied by no success answer"))
         if len(set(cands)) != len(cands):
             bad.append(("duplicate-candidate", str(cands)))
+        glines = []
         if dones and not endless:
             bad += completion_oracles(ev, dones[0], cands, servers, rc, rto)
+            if dup == 0 and not any("6" in sc_[2] for sc_ in servers):
+                glines = gather_model_lines(ev, dones[0], cands, servers)
         return dict(seed=seed, bad=bad, known=known, script=s.script, servers=servers, ncands=len(cands),
-                    done_at=(dones[0] - t0) if dones else None, endless=endless)
+                    done_at=(dones[0] - t0) if dones else None, endless=endless, glines=glines)
     except simlib.SimDied as e:
         return dict(seed=seed, bad=[("crash", str(e)[-1500:])], known=[], script=s.script, servers=servers, ncands=0,
                     done_at=None, endless=endless)
@@ -264,11 +329,27 @@ def run(tier, seed):
                 for _, _, scr in r["servers"]:
                     for ch in scr:
                         behs[ch] = behs.get(ch, 0) + 1
+            # per-item replay through the Lean Gather model
+            glines, owner = [], []
+            for ri, r in enumerate(res):
+                for (line, exp, what) in r.get("glines", []):
+                    glines.append(line); owner.append((ri, exp, what))
+            n_items = 0
+            if glines and st.get("proof"):
+                mo, mrc, merr = vlib.run_lines(vlib.model_exe(), glines)
+                if len(mo) != len(glines):
+                    diverged.append({"op": "gather", "impl": f"{len(glines)} lines", "model": f"{len(mo)} lines rc={mrc}"})
+                else:
+                    for (ri, exp, what), line, got in zip(owner, glines, mo):
+                        n_items += 1
+                        if got != exp and len([d for d in diverged if d.get("index") == ri]) == 0:
+                            diverged.append({"index": ri, "op": line, "impl": exp, "model": got, "what": what,
+                                             "session": res[ri]["script"], "servers": res[ri]["servers"]})
             if k3:
                 chk.known(K3_TEXT + f" [e.g. scenario seed {k3[1]}: {k3[0]}]")
             chk.cov["evaluations"] = len(res)
             chk.cov["distinct_nontrivial"] = len({json.dumps(r["servers"]) for r in res if r["ncands"] > 1})
-            chk.cov["traces_validated_against_impl"] = sum(1 for r in res if not r["bad"])
+            chk.cov["traces_validated_against_impl"] = n_items
             chk.cov["rule"] = ("one evaluation = one gathering run of a real agent (1-2 addresses, 1-2 components, 0-1 STUN and 0-3 TURN "
                                "servers) against scripted servers drawn from drop / success / duplicate / late / error / garbage / other "
                                "txid / IPv6 / 401-then-auth / unauthenticated success / 438 / 300, with loss, latency and duplication on "
@@ -277,7 +358,8 @@ def run(tier, seed):
             times = [r["done_at"] for r in res if r["done_at"] is not None]
             chk.cov["generator_distribution"] = {"behaviour_letters": behs, "failure_kinds": kinds,
                                                  "completion_ms_max": max(times) if times else None,
-                                                 "endless_scripts": sum(1 for r in res if r["endless"])}
+                                                 "endless_scripts": sum(1 for r in res if r["endless"]),
+                                                 "discovery_items_replayed_through_model": n_items}
     return conclude(chk, st, diverged, ofail, "sim_drv:C20 gathering vs scripted servers")
 
 
